@@ -32,50 +32,104 @@ Proof.
 Qed.
 
 (* ------------------------------------------------------------------ *)
-(* the kinds covered by [canon] *)
-Definition simple_kind (k : fkind) : bool :=
-  match k with
-  | K_u8 | K_u16 | K_u32 | K_u48 | K_u64 | K_name _ | K_string | K_txt | K_octet | K_any
-  | K_hex _ | K_hexdash _ | K_b64 _ | K_b32 _ | K_a | K_aaaa | K_names _ | K_nsec => true
-  | _ => false
-  end.
-
-(* what the proof needs of a field sequence: covered kinds only, field names
-   pairwise distinct, a sized field sized by an earlier field, and only the
-   last field of to-the-end extent *)
+(* what the proof needs of a field sequence: the struct fields it assigns are
+   pairwise distinct, a sized field (or the gateway union) depends on an
+   earlier field, and only the last field is of to-the-end extent *)
+Definition names_distinct (l : list string) : bool :=
+  match l with [a; b] => negb (String.eqb a b) | _ => true end.
 Fixpoint layout_ok (seen : list string) (ps : list pfield) : bool :=
   match ps with
   | [] => true
   | (f, k) :: r =>
-    simple_kind k && negb (existsb (String.eqb f) seen) &&
-    (match sized_by k with Some s => existsb (String.eqb s) seen | None => true end) &&
+    forallb (fun g => negb (existsb (String.eqb g) seen)) (knames f k) && names_distinct (knames f k) &&
+    (match depends_on k with Some s => existsb (String.eqb s) seen | None => true end) &&
     (match r with [] => true | _ => negb (to_end k) end) &&
-    layout_ok (f :: seen) r
+    layout_ok (knames f k ++ seen) r
   end.
 
 Definition fields_canon (v : rdata) (ps : list pfield) : Prop :=
-  Forall (fun fk : pfield => exists x, vget v (fst fk) = Some x /\ canon v (snd fk) x) ps.
+  Forall (fun fk : pfield => field_canon v (fst fk) (snd fk)) ps.
 
-(* the decoded field is the packed one, or (RDATA exhausted early) absent while
-   the packed one was the zero value *)
-Definition same_field (k : fkind) (got want : option fval) : Prop :=
-  got = want \/ (got = None /\ want = Some (zero_of k)).
+(* the decoded struct field is the packed one, or (RDATA exhausted early) absent
+   while the packed one was the zero value *)
+Definition same_val (z : fval) (got want : option fval) : Prop :=
+  got = want \/ (got = None /\ want = Some z).
+Definition same_fields (k : fkind) (names : list string) (got want : rdata) : Prop :=
+  Forall (fun g => same_val (kzero k g) (vget got g) (vget want g)) names.
+Definition all_same (ps : list pfield) (got want : rdata) : Prop :=
+  Forall (fun fk : pfield => same_fields (snd fk) (knames (fst fk) (snd fk)) got want) ps.
+Definition all_zero (ps : list pfield) (v : rdata) : Prop :=
+  Forall (fun fk : pfield => Forall (fun g => vget v g = Some (kzero (snd fk) g)) (knames (fst fk) (snd fk))) ps.
 
 Definition got_inv (v : rdata) (seen : list string) (got : rdata) : Prop :=
   (forall g, In g seen -> exists y, vget v g = Some y /\ vget got g = Some y) /\
   (forall g, ~ In g seen -> vget got g = None).
 
-Lemma layout_ok_fresh ps : forall seen f k, layout_ok seen ps = true -> In (f, k) ps -> ~ In f seen.
+Lemma got_inv_equiv v seen seen' got :
+  (forall g, In g seen <-> In g seen') -> got_inv v seen got -> got_inv v seen' got.
 Proof.
-  induction ps as [|[f0 k0] ps IH]; intros seen f k H Hin; [destruct Hin|].
-  cbn [layout_ok] in H. repeat (apply andb_prop in H; destruct H as [H ?]).
-  destruct Hin as [E|Hin].
-  - injection E as -> ->. apply existsb_eqb_notin. now destruct (existsb _ seen).
-  - intro Hs. eapply IH; [eassumption|exact Hin|right; exact Hs].
+  intros He [H1 H2]. split; intros g Hg.
+  - apply H1, He, Hg.
+  - apply H2. intro Hs. apply Hg, He, Hs.
 Qed.
 
-Lemma assigned_simple u k : kind_agree k (uf_kind u) = true -> simple_kind k = true -> assigned u = [uf_name u].
-Proof. unfold assigned. destruct k; destruct (uf_kind u); cbn; try discriminate; reflexivity. Qed.
+Lemma got_inv_extend1 v seen got g y :
+  got_inv v seen got -> vget v g = Some y -> ~ In g seen -> got_inv v (g :: seen) (got ++ [(g, y)]).
+Proof.
+  intros [Hi1 Hi2] Hv Hnf. split.
+  - intros h [<-|Hh].
+    + exists y. split; [exact Hv|]. rewrite vget_app, (Hi2 g Hnf). cbn. now rewrite String.eqb_refl.
+    + destruct (Hi1 h Hh) as [z [Hz1 Hz2]]. exists z. split; [exact Hz1|]. now rewrite vget_app, Hz2.
+  - intros h Hh. rewrite vget_app, Hi2 by (intro; apply Hh; now right). cbn.
+    destruct (String.eqb_spec h g) as [->|]; [exfalso; apply Hh; now left|reflexivity].
+Qed.
+
+Lemma got_inv_extend v names : forall vals seen got,
+  got_inv v seen got -> Forall2 (fun g y => vget v g = Some y) names vals ->
+  (forall g, In g names -> ~ In g seen) -> NoDup names ->
+  got_inv v (names ++ seen) (got ++ combine names vals).
+Proof.
+  induction names as [|g names IH]; intros vals seen got Hi Hf Hfresh Hnd.
+  - cbn. now rewrite app_nil_r.
+  - inversion Hf as [|? y ? vals' Hy Hf']; subst. inversion Hnd as [|? ? Hng Hnd']; subst.
+    cbn [combine].
+    replace (got ++ (g, y) :: combine names vals') with ((got ++ [(g, y)]) ++ combine names vals')
+      by (rewrite <- app_assoc; reflexivity).
+    apply (got_inv_equiv v (names ++ g :: seen)).
+    { intro h. cbn [app]. rewrite !in_app_iff. cbn [In]. rewrite ?in_app_iff. tauto. }
+    apply IH; [|exact Hf'| |exact Hnd'].
+    + apply got_inv_extend1; [exact Hi|exact Hy|]. apply Hfresh. now left.
+    + intros h Hh [<-|Hs]; [contradiction|]. apply (Hfresh h); [now right|exact Hs].
+Qed.
+
+Lemma names_distinct_nodup f k : names_distinct (knames f k) = true -> NoDup (knames f k).
+Proof.
+  assert (H1 : forall g : string, NoDup [g]) by (intro g; constructor; [intros []|constructor]).
+  destruct k; cbn [knames names_distinct]; intro H; try apply H1.
+  constructor; [|apply H1].
+  intros [E|[]]. subst. rewrite String.eqb_refl in H. discriminate.
+Qed.
+
+Lemma layout_ok_fresh ps : forall seen f k g,
+  layout_ok seen ps = true -> In (f, k) ps -> In g (knames f k) -> ~ In g seen.
+Proof.
+  induction ps as [|[f0 k0] ps IH]; intros seen f k g H Hin Hg; [destruct Hin|].
+  cbn [layout_ok] in H. repeat (apply andb_prop in H; destruct H as [H ?]).
+  destruct Hin as [E|Hin].
+  - injection E as -> ->. rewrite forallb_forall in H. specialize (H g Hg).
+    apply existsb_eqb_notin. now destruct (existsb _ seen).
+  - intro Hs. eapply IH; [eassumption|exact Hin|exact Hg|]. apply in_app_iff. now right.
+Qed.
+
+Lemma assigned_knames u f k : kind_agree k (uf_kind u) = true -> f = uf_name u -> assigned u = knames f k.
+Proof.
+  unfold assigned. intros H ->. destruct k; destruct (uf_kind u); cbn in *; try discriminate; try reflexivity.
+  repeat (apply andb_prop in H; destruct H as [H ?]).
+  repeat match goal with H : String.eqb _ _ = true |- _ => apply String.eqb_eq in H end. subst. reflexivity.
+Qed.
+
+Lemma vget_n_eq v got s : (exists y, vget v s = Some y /\ vget got s = Some y) -> vget_n got s = vget_n v s.
+Proof. intros [y [H1 H2]]. unfold vget_n. now rewrite H1, H2. Qed.
 
 Lemma fields_roundtrip v cap ps : forall us seen got pre out st',
   sides_agree ps us = true -> layout_ok seen ps = true ->
@@ -83,73 +137,72 @@ Lemma fields_roundtrip v cap ps : forall us seen got pre out st',
   pack_fields v ps cap (st0 out) = Ok st' ->
   exists b ext, st' = st0 (out ++ b) /\
     unpack_fields us got (pre ++ b) (lenN pre) = Ok (got ++ ext, lenN pre + lenN b) /\
-    (b = [] -> Forall (fun fk : pfield => vget v (fst fk) = Some (zero_of (snd fk))) ps) /\
+    (b = [] -> all_zero ps v) /\
     (ps = [] -> b = []) /\
-    Forall (fun fk : pfield => same_field (snd fk) (vget (got ++ ext) (fst fk)) (vget v (fst fk))) ps.
+    all_same ps (got ++ ext) v.
 Proof.
   induction ps as [|[f k] ps IH]; intros us seen got pre out st' Hs Hl Hc Hi Hp.
   - destruct us; [|discriminate]. cbn in Hp. injection Hp as <-.
     exists [], []. rewrite !app_nil_r. cbn [unpack_fields lenN length N.of_nat].
-    repeat split; auto. f_equal. f_equal. lia.
+    repeat split; try constructor. f_equal. f_equal. lia.
   - destruct us as [|u us]; [discriminate|]. cbn [sides_agree] in Hs.
     apply andb_prop in Hs. destruct Hs as [Hs Hs']. apply andb_prop in Hs. destruct Hs as [Hname Hk].
     apply String.eqb_eq in Hname.
     cbn [layout_ok] in Hl. apply andb_prop in Hl. destruct Hl as [Hl Hl'].
     apply andb_prop in Hl. destruct Hl as [Hl Hlast]. apply andb_prop in Hl. destruct Hl as [Hl Hsz].
-    apply andb_prop in Hl. destruct Hl as [Hsimple Hfresh].
-    assert (Hnf : ~ In f seen). { apply existsb_eqb_notin. now destruct (existsb _ seen). }
-    pose proof (Forall_inv_tail Hc) as Hc'. apply Forall_inv in Hc. destruct Hc as [x [Hv Hcx]].
-    cbn [fst snd] in Hv, Hcx.
+    apply andb_prop in Hl. destruct Hl as [Hfresh Hdist].
+    set (names := knames f k) in *.
+    assert (Hnf : forall g, In g names -> ~ In g seen).
+    { intros g Hg. rewrite forallb_forall in Hfresh. specialize (Hfresh g Hg).
+      apply existsb_eqb_notin. now destruct (existsb _ seen). }
+    pose proof (Forall_inv_tail Hc) as Hc'. apply Forall_inv in Hc. cbn [fst snd] in Hc.
     cbn [pack_fields] in Hp. inv_bind Hp.
-    destruct (field_roundtrip v f k (uf_kind u) x cap out a Hk Hv Hcx Ha) as [b1 [-> [Hz Hu]]].
-    destruct Hi as [Hi1 Hi2].
-    assert (Hi' : got_inv v (f :: seen) (got ++ [(f, x)])).
-    { split.
-      - intros g [<-|Hg].
-        + exists x. split; [exact Hv|]. rewrite vget_app, (Hi2 f Hnf). cbn. now rewrite String.eqb_refl.
-        + destruct (Hi1 g Hg) as [y [Hy1 Hy2]]. exists y. split; [exact Hy1|]. now rewrite vget_app, Hy2.
-      - intros g Hg. rewrite vget_app, Hi2 by (intro; apply Hg; now right). cbn.
-        destruct (String.eqb_spec g f) as [->|]; [exfalso; apply Hg; now left|reflexivity]. }
-    destruct (IH us (f :: seen) (got ++ [(f, x)]) (pre ++ b1) (out ++ b1) st' Hs' Hl' Hc' Hi' Hp)
+    destruct (field_roundtrip_gen v f k (uf_kind u) cap out a Hk Hc Ha) as [b1 [vals [-> [Hvals [Hz Hu]]]]].
+    fold names in Hvals, Hz.
+    assert (Hi' : got_inv v (names ++ seen) (got ++ combine names vals)).
+    { apply got_inv_extend; try assumption. apply names_distinct_nodup, Hdist. }
+    destruct (IH us (names ++ seen) (got ++ combine names vals) (pre ++ b1) (out ++ b1) st' Hs' Hl' Hc' Hi' Hp)
       as [b2 [ext [-> [Hun [Hz2 [Hnil Hsame]]]]]].
     assert (Hpost : to_end k = true -> b2 = []).
     { intro Ht. destruct ps; [now apply Hnil|]. rewrite Ht in Hlast. discriminate. }
-    assert (Hsized : forall s, sized_by k = Some s -> vget_n got s = vget_n v s).
-    { intros s Es. rewrite Es in Hsz. apply existsb_eqb_in in Hsz.
-      destruct (Hi1 s Hsz) as [y [Hy1 Hy2]]. unfold vget_n. now rewrite Hy1, Hy2. }
-    specialize (Hu pre b2 got Hpost Hsized).
-    assert (Hzero : b1 ++ b2 = [] ->
-      Forall (fun fk : pfield => vget v (fst fk) = Some (zero_of (snd fk))) ((f, k) :: ps)).
+    assert (Hdep : forall s, depends_on k = Some s -> vget_n got s = vget_n v s).
+    { intros s Es. rewrite Es in Hsz. apply existsb_eqb_in in Hsz. destruct Hi as [Hi1 _].
+      apply vget_n_eq, Hi1, Hsz. }
+    specialize (Hu pre b2 got Hpost Hdep).
+    assert (Hzero : b1 ++ b2 = [] -> all_zero ((f, k) :: ps) v).
     { intro E. apply app_eq_nil in E. destruct E as [E1 E2]. constructor; [|now apply Hz2].
-      cbn [fst snd]. rewrite Hv, (Hz E1). reflexivity. }
+      cbn [fst snd]. now apply Hz. }
     assert (Hstep : unpack_fields (u :: us) got (pre ++ b1 ++ b2) (lenN pre) =
       if uf_exit u && (lenN pre + lenN b1 =? lenN (pre ++ b1 ++ b2))
-      then Ok (got ++ [(f, x)], lenN pre + lenN b1)
-      else unpack_fields us (got ++ [(f, x)]) (pre ++ b1 ++ b2) (lenN pre + lenN b1)).
+      then Ok (got ++ combine names vals, lenN pre + lenN b1)
+      else unpack_fields us (got ++ combine names vals) (pre ++ b1 ++ b2) (lenN pre + lenN b1)).
     { cbn [unpack_fields]. rewrite Hu. cbn [bind fst snd].
-      rewrite (assigned_simple u k Hk Hsimple), <- Hname. reflexivity. }
-    assert (Hf : vget (got ++ [(f, x)]) f = vget v f).
-    { destruct Hi' as [Hi'1 _]. destruct (Hi'1 f (or_introl eq_refl)) as [y [Hy1 Hy2]]. now rewrite Hy1, Hy2. }
+      rewrite (assigned_knames u f k Hk Hname). reflexivity. }
+    assert (Hthis : forall ext', same_fields k names ((got ++ combine names vals) ++ ext') v).
+    { intro ext'. unfold same_fields. rewrite Forall_forall. intros g Hg. left.
+      destruct Hi' as [Hi'1 _]. destruct (Hi'1 g) as [y [Hy1 Hy2]]; [apply in_app_iff; now left|].
+      now rewrite vget_app, Hy2, Hy1. }
     destruct (uf_exit u && (lenN pre + lenN b1 =? lenN (pre ++ b1 ++ b2))) eqn:Hex.
     + (* the RDATA is exhausted: unpack() returns early *)
       apply andb_prop in Hex. destruct Hex as [_ Hex]. rewrite !lenN_app in Hex.
       assert (E2 : b2 = []) by (apply lenN_0; lia). subst b2.
-      exists (b1 ++ []), [(f, x)]. split; [now rewrite app_assoc|]. split.
+      exists (b1 ++ []), (combine names vals). split; [now rewrite app_assoc|]. split.
       { rewrite Hstep. f_equal. f_equal. rewrite !lenN_app. lia. }
       split; [exact Hzero|]. split; [discriminate|].
       constructor.
-      * cbn [fst snd]. left. exact Hf.
-      * specialize (Hz2 eq_refl). rewrite Forall_forall in *. intros [f' k'] Hin. cbn [fst snd].
-        right. split; [|apply (Hz2 (f', k') Hin)].
+      * cbn [fst snd]. specialize (Hthis []). now rewrite app_nil_r in Hthis.
+      * specialize (Hz2 eq_refl). unfold all_zero, all_same, same_fields in *.
+        rewrite Forall_forall in *. intros [f' k'] Hin. cbn [fst snd].
+        specialize (Hz2 (f', k') Hin). cbn [fst snd] in Hz2. rewrite Forall_forall in *.
+        intros g Hg. right. split; [|now apply Hz2].
         destruct Hi' as [_ Hi'2]. apply Hi'2. eapply layout_ok_fresh; eassumption.
-    + exists (b1 ++ b2), ([(f, x)] ++ ext). split; [now rewrite app_assoc|].
+    + exists (b1 ++ b2), (combine names vals ++ ext). split; [now rewrite app_assoc|].
       split.
       { rewrite Hstep. replace (lenN pre + lenN b1) with (lenN (pre ++ b1)) by apply lenN_app.
         rewrite (app_assoc pre b1 b2), Hun. rewrite <- app_assoc. f_equal. f_equal. rewrite !lenN_app. lia. }
       split; [exact Hzero|]. split; [discriminate|].
       rewrite app_assoc.
-      constructor; [|exact Hsame].
-      cbn [fst snd]. left. rewrite vget_app, Hf. destruct (vget v f) eqn:E; [reflexivity|]. congruence.
+      constructor; [|exact Hsame]. cbn [fst snd]. apply Hthis.
 Qed.
 
 (* the field-sequence theorem, from an empty record *)
@@ -158,8 +211,8 @@ Theorem fields_roundtrip_top v cap ps us pre out st' :
   pack_fields v ps cap (st0 out) = Ok st' ->
   exists b got', st' = st0 (out ++ b) /\
     unpack_fields us [] (pre ++ b) (lenN pre) = Ok (got', lenN pre + lenN b) /\
-    (b = [] -> Forall (fun fk : pfield => vget v (fst fk) = Some (zero_of (snd fk))) ps) /\
-    Forall (fun fk : pfield => same_field (snd fk) (vget got' (fst fk)) (vget v (fst fk))) ps.
+    (b = [] -> all_zero ps v) /\
+    all_same ps got' v.
 Proof.
   intros Hs Hl Hc Hp.
   destruct (fields_roundtrip v cap ps us [] [] pre out st' Hs Hl Hc) as [b [ext [H1 [H2 [H3 [_ H4]]]]]]; auto.
@@ -243,8 +296,7 @@ Qed.
 Definition rr_same (L : tlayout) (r' r : rr) : Prop :=
   rr_name r' = rr_name r /\ rr_type r' = rr_type r /\ rr_class r' = rr_class r /\
   rr_ttl r' = rr_ttl r /\ rr_kind r' = rr_kind r /\
-  Forall (fun fk : pfield => same_field (snd fk) (vget (rr_data r') (fst fk)) (vget (rr_data r) (fst fk)))
-         (tl_pack L).
+  all_same (tl_pack L) (rr_data r') (rr_data r).
 
 Theorem rr_roundtrip r L ls cap out st' post :
   find_layout layouts (rr_kind r) = Some L -> layout_ok [] (tl_pack L) = true ->
@@ -298,7 +350,7 @@ Proof.
                           rr_ttl := rr_ttl r; rr_rdlength := lenN rd; rr_kind := rr_kind r; rr_data := d |}).
   assert (Hres : exists d, unpack_rr (out ++ rr_wire ls r rd ++ post) (lenN out) =
                    Ok (mk d, lenN out + lenN (rr_wire ls r rd)) /\
-                 Forall (fun fk : pfield => same_field (snd fk) (vget d (fst fk)) (vget (rr_data r) (fst fk))) (tl_pack L)).
+                 all_same (tl_pack L) d (rr_data r)).
   { unfold unpack_rr. rewrite unpack_rr_header_wire by (assumption || lia).
     cbn [bind]. unfold unpack_rr_with_header. cbn [h_type h_name h_class h_ttl h_rdlength].
     rewrite <- Hkind, Hfind, EHd, lenN_app, LHd, len_rr_wire.
@@ -308,7 +360,9 @@ Proof.
     - exists []. split.
       + unfold mk. f_equal. f_equal. lia.
       + assert (rd = []) by (apply lenN_0; lia). specialize (Hzero H).
-        rewrite Forall_forall in *. intros fk Hin. right. split; [reflexivity|now apply Hzero].
+        unfold all_zero, all_same, same_fields in *. rewrite Forall_forall in *. intros fk Hin.
+        specialize (Hzero fk Hin). rewrite Forall_forall in *. intros g Hg.
+        right. split; [reflexivity|now apply Hzero].
     - exists got'. split; [|exact Hsame].
       rewrite <- LHd, Hun. cbn [bind fst snd].
       btrue (lenN Hd + lenN rd =? lenN Hd + lenN rd). unfold mk. f_equal. f_equal. lia. }
@@ -318,27 +372,40 @@ Proof.
 Qed.
 
 (* ------------------------------------------------------------------ *)
-(* coverage: the record types whose translated layout meets [layout_ok] *)
+(* coverage: every record type of the translated table meets [layout_ok] *)
 Definition layout_supported (L : tlayout) : bool := layout_ok [] (tl_pack L).
+
+Lemma all_layouts_supported : forallb layout_supported layouts = true.
+Proof. vm_compute. reflexivity. Qed.
 
 Lemma supported_census :
   map tl_name (filter layout_supported layouts) =
-  ["A"; "AAAA"; "AFSDB"; "ANY"; "AVC"; "CAA"; "CDNSKEY"; "CDS"; "CERT"; "CNAME"; "CSYNC"; "DHCID";
-   "DLV"; "DNAME"; "DNSKEY"; "DS"; "EID"; "EUI48"; "EUI64"; "GID"; "GPOS"; "HINFO"; "HIP"; "ISDN";
-   "KEY"; "KX"; "L32"; "L64"; "LOC"; "LP"; "MB"; "MD"; "MF"; "MG"; "MINFO"; "MR"; "MX"; "NAPTR";
-   "NID"; "NIMLOC"; "NINFO"; "NS"; "NSAPPTR"; "NSEC"; "NSEC3"; "NSEC3PARAM"; "NULL"; "NXNAME";
-   "NXT"; "OPENPGPKEY"; "PTR"; "PX"; "RESINFO"; "RFC3597"; "RKEY"; "RP"; "RRSIG"; "RT"; "SIG";
-   "SMIMEA"; "SOA"; "SPF"; "SRV"; "SSHFP"; "TA"; "TALINK"; "TKEY"; "TLSA"; "TSIG"; "TXT"; "UID";
-   "UINFO"; "URI"; "X25"; "ZONEMD"]%string.
+  ["A"; "AAAA"; "AFSDB"; "AMTRELAY"; "ANY"; "APL"; "AVC"; "CAA"; "CDNSKEY"; "CDS"; "CERT"; "CNAME";
+   "CSYNC"; "DHCID"; "DLV"; "DNAME"; "DNSKEY"; "DS"; "EID"; "EUI48"; "EUI64"; "GID"; "GPOS"; "HINFO";
+   "HIP"; "HTTPS"; "IPSECKEY"; "ISDN"; "KEY"; "KX"; "L32"; "L64"; "LOC"; "LP"; "MB"; "MD"; "MF"; "MG";
+   "MINFO"; "MR"; "MX"; "NAPTR"; "NID"; "NIMLOC"; "NINFO"; "NS"; "NSAPPTR"; "NSEC"; "NSEC3";
+   "NSEC3PARAM"; "NULL"; "NXNAME"; "NXT"; "OPENPGPKEY"; "OPT"; "PTR"; "PX"; "RESINFO"; "RFC3597";
+   "RKEY"; "RP"; "RRSIG"; "RT"; "SIG"; "SMIMEA"; "SOA"; "SPF"; "SRV"; "SSHFP"; "SVCB"; "TA"; "TALINK";
+   "TKEY"; "TLSA"; "TSIG"; "TXT"; "UID"; "UINFO"; "URI"; "X25"; "ZONEMD"]%string.
 Proof. vm_compute. reflexivity. Qed.
 
-Lemma unsupported_census :
-  map tl_name (filter (fun L => negb (layout_supported L)) layouts) =
-  ["AMTRELAY"; "APL"; "HTTPS"; "IPSECKEY"; "OPT"; "SVCB"]%string.
-Proof. vm_compute. reflexivity. Qed.
+(* the record theorem for every record type that has a layout *)
+Theorem rr_roundtrip_all r L ls cap out st' post :
+  find_layout layouts (rr_kind r) = Some L ->
+  rr_ok r ls -> fields_canon (rr_data r) (tl_pack L) ->
+  lenN out < cap ->
+  pack_rr r cap false (st0 out) = Ok st' ->
+  exists rd r',
+    st' = st0 (out ++ rr_wire ls r rd) /\
+    unpack_rr (out ++ rr_wire ls r rd ++ post) (lenN out) = Ok (r', lenN out + lenN (rr_wire ls r rd)) /\
+    rr_rdlength r' = lenN rd /\ rr_same L r' r.
+Proof.
+  intros Hfind. apply rr_roundtrip; [exact Hfind|].
+  pose proof all_layouts_supported as H. rewrite forallb_forall in H. apply H. eapply find_layout_in; eauto.
+Qed.
 
 (* ------------------------------------------------------------------ *)
-(* non-vacuity: a concrete MX and a concrete TXT record *)
+(* non-vacuity: concrete records *)
 Definition ex_owner : list label := [[101; 120]; [99; 111; 109]].           (* ex.com. *)
 Definition ex_mx : rr :=
   {| rr_name := show_name ex_owner; rr_type := 15; rr_class := 1; rr_ttl := 3600; rr_rdlength := 0;
@@ -348,6 +415,14 @@ Definition ex_txt : rr :=
   {| rr_name := show_name ex_owner; rr_type := 16; rr_class := 1; rr_ttl := 4294967295; rr_rdlength := 7;
      rr_kind := "TXT";
      rr_data := [("Txt"%string, V_ss (map show_txt [[104; 105; 34; 0]; []; [255; 92]]))] |}.
+(* an IPSECKEY with an IPv4 gateway and an empty key: the generated unpack()
+   returns before the PublicKey statement *)
+Definition ex_ipseckey : rr :=
+  {| rr_name := show_name ex_owner; rr_type := 45; rr_class := 1; rr_ttl := 0; rr_rdlength := 0;
+     rr_kind := "IPSECKEY";
+     rr_data := [("Precedence"%string, V_n 10); ("GatewayType"%string, V_n 1); ("Algorithm"%string, V_n 2);
+                 ("GatewayAddr"%string, V_b [192; 0; 2; 1]); ("GatewayHost"%string, V_s []);
+                 ("PublicKey"%string, V_enc [])] |}.
 
 Example mx_hypotheses_hold :
   exists L st',
@@ -362,7 +437,7 @@ Proof.
   eexists. eexists. split; [vm_compute; reflexivity|]. split; [vm_compute; reflexivity|].
   split. { unfold rr_ok. repeat split; try reflexivity; cbn; lia. }
   split.
-  { repeat constructor; cbn [fst snd].
+  { repeat constructor; cbn [fst snd field_canon].
     - eexists. split; [reflexivity|]. exists 10. split; [reflexivity|lia].
     - eexists. split; [reflexivity|]. exists [[109; 120]; [92; 46]]. split; reflexivity. }
   split; [vm_compute; reflexivity|]. split; vm_compute; reflexivity.
@@ -381,9 +456,52 @@ Proof.
   eexists. eexists. split; [vm_compute; reflexivity|]. split; [vm_compute; reflexivity|].
   split. { unfold rr_ok. repeat split; try reflexivity; cbn; lia. }
   split.
-  { repeat constructor; cbn [fst snd].
+  { repeat constructor; cbn [fst snd field_canon].
     eexists. split; [reflexivity|]. exists [[104; 105; 34; 0]; []; [255; 92]].
     split; [reflexivity|]. split; [discriminate|].
     repeat constructor; cbn; lia. }
   split; [vm_compute; reflexivity|]. split; vm_compute; reflexivity.
+Qed.
+
+Example ipseckey_hypotheses_hold :
+  exists L st',
+    find_layout layouts (rr_kind ex_ipseckey) = Some L /\
+    rr_ok ex_ipseckey ex_owner /\ fields_canon (rr_data ex_ipseckey) (tl_pack L) /\
+    pack_rr ex_ipseckey 100 false (st0 []) = Ok st' /\
+    pn_out st' = rr_wire ex_owner ex_ipseckey [10; 1; 2; 192; 0; 2; 1] /\
+    unpack_rr (pn_out st') 0 =
+      Ok ({| rr_name := rr_name ex_ipseckey; rr_type := 45; rr_class := 1; rr_ttl := 0; rr_rdlength := 7;
+             rr_kind := "IPSECKEY";
+             rr_data := [("Precedence"%string, V_n 10); ("GatewayType"%string, V_n 1); ("Algorithm"%string, V_n 2);
+                         ("GatewayAddr"%string, V_b [192; 0; 2; 1]); ("GatewayHost"%string, V_s [])] |}, 25).
+Proof.
+  eexists. eexists. split; [vm_compute; reflexivity|].
+  split. { unfold rr_ok. repeat split; try reflexivity; cbn; lia. }
+  split.
+  { repeat constructor; cbn [fst snd field_canon].
+    - eexists. split; [reflexivity|]. exists 10. split; [reflexivity|lia].
+    - eexists. split; [reflexivity|]. exists 1. split; [reflexivity|lia].
+    - eexists. split; [reflexivity|]. exists 2. split; [reflexivity|lia].
+    - discriminate.
+    - exists [192; 0; 2; 1], []. split; [reflexivity|]. split; [reflexivity|]. left. repeat split.
+    - eexists. split; [reflexivity|]. exists []. split; reflexivity. }
+  split; [vm_compute; reflexivity|]. split; vm_compute; reflexivity.
+Qed.
+
+(* why the record theorem asks for lenN out < cap: at off = len(msg) packHeader
+   writes nothing, and packRR then back-patches an RDLENGTH over the two octets
+   BEFORE the record; nothing of the record can be read back *)
+Definition ex_any : rr :=
+  {| rr_name := show_name ex_owner; rr_type := 255; rr_class := 1; rr_ttl := 0; rr_rdlength := 0;
+     rr_kind := "ANY"; rr_data := [] |}.
+Example full_buffer_quirk :
+  rr_ok ex_any ex_owner /\ fields_canon (rr_data ex_any) [] /\
+  find_layout layouts (rr_kind ex_any) = Some {| tl_name := "ANY"; tl_pack := []; tl_unpack := [] |} /\
+  pack_rr ex_any 3 false (st0 [1; 2; 3]) = Ok (st0 [1; 0; 0]) /\
+  unpack_rr [1; 0; 0] 3 =
+    Ok ({| rr_name := []; rr_type := 0; rr_class := 0; rr_ttl := 0; rr_rdlength := 0;
+           rr_kind := kind_of_type 0; rr_data := [] |}, 3).
+Proof.
+  split. { unfold rr_ok. repeat split; try reflexivity; cbn; lia. }
+  split; [constructor|]. split; [vm_compute; reflexivity|]. split; vm_compute; reflexivity.
 Qed.
